@@ -617,7 +617,7 @@ class DebugSuite(Suite):
                     if c < 0.2:
                         vname = 'Ren'
                         vparams.append(pick(r, ['name = Ren', 'name(Ren)', 'name = "Ren"', 'rename = Ren']))
-                    elif c < 0.35:
+                    elif c < 0.48:
                         vname = None
                         vparams.append(pick(r, ['name = false', 'name(false)', 'name = ""']))
                 named = style_for(v, vparams, v.shape == 'named', nameless=(vname is None and tname is None))
